@@ -16,7 +16,7 @@ ID = "C14"
 MANIFEST = {
     "category": "exploration",
     "text": "Generated-input search with a metamorphic oracle: deep AHBs in which SOLL (all spellings and letter cases) is forced to occur at groups, segments and free-text data elements x content evaluation results x both flag values. The full ValidationResultInContext list of validate_deep_anwendungshandbuch(tree, flag) must equal the one for the tree with every SOLL rewritten to MUSS (flag True) resp. KANN (flag False), under either flag value; or all three raise NotImplementedError. The same relation is checked for validate_segment_level / validate_segment on drawn sub-trees. For flag True the same calls are repeated with the argument left out (documented default True) at validate_deep_anwendungshandbuch, validate_segment_level and validate_segment_group. Free-text elements carry maus value types (absent / TEXT / DATETIME); in half of the cases up to three SOLL elements get a neighbour in the same segment that is written exactly as the rewriting will write them (same condition text, same input, other value type), so that the rewritten AHB contains elements that coincide in expression and input.",
-    "note": "Trusted: the indicator rewrite (done on the structured parts, re-rendered by the same renderer) and attrs equality of the result objects. No reference model is involved. Process configuration by shard (vlib/sut.py; recorded in replay files): plain / parse caches preheated beyond their size / warnings attributed to ahbicht raised as errors / logging fully enabled with every record rendered; one event loop per process or a new one per call; five process time zones; the hash seed is the shard number; namesakes of ahbicht's marshmallow schema classes are registered.",
+    "note": "Trusted: the indicator rewrite (done on the structured parts, re-rendered by the same renderer) and attrs equality of the result objects. No reference model is involved. Process configuration by shard (vlib/sut.py; recorded in replay files): plain / parse caches preheated beyond their size / warnings attributed to ahbicht raised as errors / logging fully enabled with every record rendered; one event loop per process or a new one per call; five process time zones; the hash seed is the shard number; namesakes of ahbicht's marshmallow schema classes are registered. Every registry of evaluators / providers / resolvers that the harness builds (sut.configure) also holds one of each kind that names no EDIFACT format and no format version; these must never be asked.",
     "technique": "property-based testing with a metamorphic relation (flag value vs rewritten indicators)",
 }
 LEVEL = "exploration"
